@@ -28,7 +28,19 @@ def c16(tier):
         trusted=["verif-tag bridge tests (ops shorten, slash, isgen)", "go/packages loader order is abstracted: e2e lines are compared as sorted lists"])
 
 
-CHECKS = {"C06": c06, "C16": c16}
+def c15(tier):
+    vlib.standard(
+        "C15", tier, "c15", ["Properties_C15.v", "Proofs_Version.v"],
+        assume=[
+            "recommended APIs are the pkg.Func / $var.Method tokens of a rule's Suggest/Report template outside the quoted match ($$); prose-only recommendations are not recognised",
+            "a method's first version is the minimum over all std types with a method of that name (GOROOT/api)",
+            "the property's range starts at Go 1.13: APIs that old need no gate",
+        ],
+        trusted=["translator vh gen ruletable (rulesdata.PrecompiledRules filters/templates, hand-written GreaterOrEqual gates, GOROOT/api/go1*.txt)",
+                 "ruleguard engine's evaluation of GoVersion filters is tied behaviourally (fires/does not fire per version), not modelled"])
+
+
+CHECKS = {"C06": c06, "C15": c15, "C16": c16}
 
 
 def run(prop, tier):
